@@ -3,6 +3,9 @@
 Theorems: coq/props/C06_Properties.v (exact rationals Qc for bin / pad / crop / calibration; an
 abstract commutative ring with roots of unity for the Fourier pipeline).  Tie to /repo:
 
+* memory layout — from_array keeps the caller's array, so every case hands its values over in one of nine layouts
+  (C, Fortran, transposed / permuted views, strided, window, negative strides, offset, read-only): the results must
+  depend on the values only (oracles, model, and the same call on np.ascontiguousarray of the array);
 * oracle — the property text evaluated directly on the real Dataset methods: independent strided
   block sums, block-mean coordinates in exact Fractions, an independent signed-frequency DFT
   interpolation matrix, mean / centre / extent / linearity / identity / band-limited up-down round
@@ -141,6 +144,205 @@ def make_array(case) -> np.ndarray:
     return a.astype(case["dtype"])
 
 
+# ------------------------------------------------------------------------------------------
+# MEMORY LAYOUT of the array handed to from_array (which keeps the caller's array as it is).  The property speaks
+# about the VALUES of the array ("for all array shapes, dtypes"): the same values stored C-contiguous, column-major,
+# as a transposed / axis-permuted view, as a strided or windowed view of a larger buffer, with negative strides, at
+# an offset inside its buffer, or read-only, are the same input.
+
+LAYOUT_KINDS = (["C"] * 6 + ["F"] * 4 + ["transposed"] * 2 + ["permuted"] * 2 + ["strided"] * 2 + ["window"] * 2
+                + ["negative"] * 2 + ["offset"] + ["readonly"])
+
+
+def layout_rng(ctx: Ctx):
+    """the layouts are an independent dimension laid over the generated cases: their generator is seeded from the
+    state of ctx.rng (VERIF_SEED) without drawing from it, so the logical cases of a seed are the same with and
+    without this dimension"""
+    import random
+    import zlib
+    if getattr(ctx, "_c06_layout_rng", None) is None:
+        ctx._c06_layout_rng = random.Random(zlib.crc32(repr(ctx.rng.getstate()).encode()))
+    return ctx._c06_layout_rng
+
+
+def gen_layout(lr, nd):
+    """a layout description (JSON): kind + its parameters; None = a fresh C-contiguous array"""
+    kind = lr.choice(LAYOUT_KINDS)
+    if kind == "C":
+        return None
+    lay = {"kind": kind}
+    if kind == "permuted":
+        perm = list(range(nd))
+        lr.shuffle(perm)
+        lay["perm"] = perm
+    elif kind == "strided":
+        lay["steps"] = [lr.choice([1, 2, 2, 3]) for _ in range(nd)]
+        if all(s == 1 for s in lay["steps"]):
+            lay["steps"][lr.randrange(nd)] = 2
+    elif kind == "window":
+        lay["before"] = [lr.randint(0, 2) for _ in range(nd)]
+        lay["after"] = [lr.randint(0, 2) for _ in range(nd)]
+        if not any(lay["before"] + lay["after"]):
+            lay["after"][lr.randrange(nd)] = 1
+        lay["order"] = lr.choice(["C", "C", "F"])
+    elif kind == "negative":
+        lay["flip"] = [lr.random() < 0.6 for _ in range(nd)]
+        if not any(lay["flip"]):
+            lay["flip"][lr.randrange(nd)] = True
+        lay["order"] = lr.choice(["C", "C", "F"])
+    elif kind == "offset":
+        lay["lead"] = lr.randint(1, 5)
+        lay["order"] = lr.choice(["C", "C", "F"])
+    if kind != "readonly" and lr.random() < 0.12:
+        lay["readonly"] = True
+    return lay
+
+
+def lay_out(a: np.ndarray, lay) -> np.ndarray:
+    """an array with the values, shape and dtype of `a` stored as `lay` says; whatever else lives in the underlying
+    buffer (gaps of a strided view, surroundings of a window, lead of an offset) is filled with a junk value"""
+    a = np.ascontiguousarray(a)
+    if not lay:
+        return a.copy()
+    kind, nd = lay["kind"], a.ndim
+    junk = np.asarray(7, dtype=a.dtype)
+    if kind == "F":
+        x = np.array(a, order="F", copy=True)
+    elif kind == "transposed":
+        x = np.ascontiguousarray(a.T).T
+    elif kind == "permuted":
+        perm = [int(p) for p in lay["perm"]]
+        x = np.ascontiguousarray(a.transpose(perm)).transpose([perm.index(i) for i in range(nd)])
+    elif kind == "strided":
+        st = [int(s) for s in lay["steps"]]
+        big = np.full([n * s for n, s in zip(a.shape, st)], junk, dtype=a.dtype)
+        sl = tuple(slice(0, n * s, s) for n, s in zip(a.shape, st))
+        big[sl] = a
+        x = big[sl]
+    elif kind == "window":
+        b, e = lay["before"], lay["after"]
+        big = np.full([int(p) + n + int(q) for p, n, q in zip(b, a.shape, e)], junk, dtype=a.dtype, order=lay["order"])
+        sl = tuple(slice(int(p), int(p) + n) for p, n in zip(b, a.shape))
+        big[sl] = a
+        x = big[sl]
+    elif kind == "negative":
+        sl = tuple(slice(None, None, -1) if f else slice(None) for f in lay["flip"])
+        x = np.array(a[sl], order=lay["order"], copy=True)[sl]
+    elif kind == "offset":
+        k = int(lay["lead"])
+        buf = np.full(k + a.size, junk, dtype=a.dtype)
+        buf[k:] = a.reshape(-1, order=lay["order"])
+        x = buf[k:].reshape(a.shape, order=lay["order"])
+    elif kind == "readonly":
+        x = a.copy()
+    else:
+        raise ValueError("unknown layout %r" % (lay,))
+    if kind == "readonly" or lay.get("readonly"):
+        x.setflags(write=False)
+    assert x.shape == a.shape and x.dtype == a.dtype and np.array_equal(x, a, equal_nan=True)
+    return x
+
+
+def layout_text(lay) -> str:
+    if not lay:
+        return "a fresh C-contiguous array"
+    k = lay["kind"]
+    t = {"F": "a Fortran-contiguous (column-major) copy, np.asfortranarray(x)",
+         "transposed": "the transposed view y.T of the C-contiguous array y = x.T.copy()",
+         "permuted": "an axis-permuted view: ascontiguousarray(x.transpose(%s)) transposed back" % (lay.get("perm"),),
+         "strided": "a strided view big[::s] of a larger buffer, steps %s" % (lay.get("steps"),),
+         "window": "a window big[b:b+n] inside a larger %s-ordered buffer, margins before %s after %s"
+                   % (lay.get("order"), lay.get("before"), lay.get("after")),
+         "negative": "a view with negative strides: %s-ordered copy of x[flip] flipped back, flipped axes %s"
+                     % (lay.get("order"), [i for i, f in enumerate(lay.get("flip", [])) if f]),
+         "offset": "a %s-ordered view starting %s elements into its buffer" % (lay.get("order"), lay.get("lead")),
+         "readonly": "a C-contiguous array"}[k]
+    return t + (", read-only (writeable=False)" if (k == "readonly" or lay.get("readonly")) else "")
+
+
+def layout_flags(x: np.ndarray) -> str:
+    c, f = bool(x.flags.c_contiguous), bool(x.flags.f_contiguous)
+    return "C+F" if c and f else "C" if c else "F" if f else "non-contiguous"
+
+
+def layout_dist(ctx: Ctx, tag, case):
+    """share of the layouts among the cases of one kind, by description and by what NumPy's flags say of the array"""
+    lay = case.get("layout")
+    x = lay_out(make_array(case), lay)
+    ctx.dist("%s/layout=%s" % (tag, lay["kind"] if lay else "C"))
+    ctx.dist("%s/layout-flags=%s%s" % (tag, layout_flags(x), "" if x.flags.writeable else ",read-only"))
+    ctx.dist("layout/%s" % ("C-contiguous fresh array" if not lay else "other"))
+    if x.ndim >= 2 and x.flags.f_contiguous and not x.flags.c_contiguous:
+        ctx.dist("layout/strictly-Fortran-contiguous,ndim>=2")
+
+
+def layout_note(case) -> str:
+    return (" [input array given as %s]" % layout_text(case["layout"])) if case.get("layout") else ""
+
+
+def same_values(x, y, rel=0.0, scale=1.0):
+    """results of one operation on two layouts of the same values: exact (rel = 0) or within rel * scale"""
+    if isinstance(x, str) or isinstance(y, str):
+        return isinstance(x, str) and isinstance(y, str), None
+    if tuple(x.shape) != tuple(y.shape):
+        return False, None
+    if rel == 0.0:
+        return exact_eq(x, y), _first_diff(x, y)
+    ok, _ = close_arr(x, y, rel, scale)
+    return ok, _first_diff(x, y, rel * scale)
+
+
+def layout_compare(case, obs, impl, name, fields, rel=0.0):
+    """"the result depends on the values only": the same call on np.ascontiguousarray(x) (the case without its
+    layout) must give the same data and calibration.  -> [(key, what)]"""
+    if not case.get("layout"):
+        return []
+    ref = impl(dict(case, layout=None))
+    scale = max(1.0, float(np.max(np.abs(make_array(case)))) if make_array(case).size else 1.0)
+    for f in fields:
+        if f in ("origin", "sampling"):
+            same, where = list(obs[f]) == list(ref[f]), None
+        else:
+            same, where = same_values(obs[f], ref[f], rel, scale)
+        if not same:
+            return [("%s-depends-on-memory-layout" % name,
+                     "%s of the SAME values gives a different %s when the array is %s than when it is "
+                     "np.ascontiguousarray of it%s: %s vs %s" % (
+                         name, {"array": "result", "padded": "padded array", "rt_rel": "pad/crop round trip",
+                                "rt_abs": "pad/crop round trip", "rt_axes": "pad/crop round trip"}.get(f, f),
+                         layout_text(case["layout"]),
+                         "" if where is None else " (first difference at %s)" % (where,),
+                         _brief(obs[f], where), _brief(ref[f], where)))]
+    return []
+
+
+def layout_guard(ctx: Ctx, name, impl, case):
+    """impl(case); when it raises for a laid-out array although the same call on np.ascontiguousarray of the same
+    values succeeds, that is a failing input of its own (reported, then the case goes on with the contiguous array);
+    any other exception is left to the framework as before"""
+    try:
+        return case, impl(case)
+    except Exception as e:  # noqa
+        if not case.get("layout"):
+            raise
+        plain = dict(case, layout=None)
+        obs = impl(plain)                    # raises again when the layout is not the reason
+        ctx.violation("%s-raises-on-memory-layout" % name,
+                      "%s raises %s: %s when the array is %s; the same call on np.ascontiguousarray of the same values "
+                      "succeeds" % (name, type(e).__name__, e, layout_text(case["layout"])), dict(case))
+        return plain, obs
+
+
+def _brief(v, where):
+    if isinstance(v, str):
+        return v
+    if isinstance(v, list):
+        return str(v)
+    if where is not None:
+        return _at(v, where)
+    return "shape %s" % (list(np.shape(v)),)
+
+
 SUBCLASSES = {2: ["Dataset2d"], 3: ["Dataset3d"], 4: ["Dataset4d", "Dataset4dstem"]}
 
 
@@ -201,7 +403,7 @@ def dataset_of(case, a=None):
     a = make_array(case) if a is None else a
     nd = a.ndim
     cls = getattr(qd, case.get("cls") or "Dataset")
-    return cls.from_array(a.copy(), name="c06", units=["A"] * nd, **calib_args(case, nd))
+    return cls.from_array(lay_out(a, case.get("layout")), name="c06", units=["A"] * nd, **calib_args(case, nd))
 
 
 def passed_axes(case):
@@ -504,16 +706,22 @@ def bin_correspond(case, obs, vre, vim):
 def check_bin(ctx: Ctx):
     r = ctx.rng
     cases = [dict(c) for c in _corpus().get("bin", [])]
+    lr = layout_rng(ctx)
     for _ in range(ctx.budget(110, 2500)):
-        cases.append(gen_bin_case(r, ctx.quick))
+        cases.append(dict(gen_bin_case(r, ctx.quick)))
+        cases[-1]["layout"] = gen_layout(lr, len(cases[-1]["shape"]))
     obs_all, exprs, owners, failed = [], [], [], {}
-    for ci, case in enumerate(cases):
-        obs = bin_impl(case)
+    for ci in range(len(cases)):
+        case, obs = layout_guard(ctx, "bin", bin_impl, cases[ci])
+        cases[ci] = case
         obs_all.append(obs)
         bad = bin_oracle(case, obs, rerun=bin_impl)
+        bad += layout_compare(case, obs, bin_impl, "bin", ("array", "origin", "sampling"),
+                              0.0 if case["reducer"] == "sum" else 2.0 ** -20)
         failed[ci] = bool(bad)
         for key, what in bad:
-            ctx.violation(key, what, dict(case))
+            ctx.violation(key, what + layout_note(case), dict(case))
+        layout_dist(ctx, "bin", case)
         a2f = dict(zip(case["axes"], case["factors"]))
         nondiv = any(case["shape"][a] % f for a, f in a2f.items())
         ctx.dist("bin/dtype=%s" % case["dtype"])
@@ -541,7 +749,7 @@ def check_bin(ctx: Ctx):
             nd += 1
             ctx.cov["disagreements_checked"] += 1
             ctx.violation(key, "model and implementation disagree on Dataset.bin (the binning theorems no longer speak "
-                          "about this code): " + what, dict(case), found_input=failed[ci])
+                          "about this code): " + what + layout_note(case), dict(case), found_input=failed[ci])
     c0 = cases[min(3, len(cases) - 1)]
     ctx.sample({"kind": "bin", "case": {k: c0[k] for k in ("dtype", "shape", "axes", "factors", "reducer")},
                 "impl_shape": list(obs_all[min(3, len(cases) - 1)]["array"].shape),
@@ -773,16 +981,24 @@ def crop_impl(case):
 def check_padcrop(ctx: Ctx):
     r = ctx.rng
     cases = [dict(c) for c in _corpus().get("pad", [])]
+    lr = layout_rng(ctx)
     for _ in range(ctx.budget(80, 1800)):
-        cases.append(gen_pad_case(r))
+        cases.append(dict(gen_pad_case(r)))
+        cases[-1]["layout"] = gen_layout(lr, len(cases[-1]["shape"]))
     obs_all, exprs, owners, failed = [], [], [], {}
-    for ci, case in enumerate(cases):
-        obs = pad_impl(case)
+    for ci in range(len(cases)):
+        case, obs = layout_guard(ctx, "pad", pad_impl, cases[ci])
+        cases[ci] = case
         obs_all.append(obs)
         bad = pad_oracle(case, obs)
+        # the fill of the non-constant np.pad modes is outside the property: only the round trips are compared there
+        bad += layout_compare(case, obs, pad_impl, "pad",
+                              (("padded",) if pad_fill8(case, "re") is not None else ()) + tuple(
+                                  f for f in ("rt_rel", "rt_abs", "rt_axes") if f in obs))
         failed[ci] = bool(bad)
         for key, what in bad:
-            ctx.violation(key, what, dict(case))
+            ctx.violation(key, what + layout_note(case), dict(case))
+        layout_dist(ctx, "pad", case)
         w = pad_widths_text(case)
         ctx.dist("pad/mode=%s" % case["mode"])
         ctx.dist("pad/np.pad-mode=%s" % (case.get("pad_kw") or "default"))
@@ -801,14 +1017,21 @@ def check_padcrop(ctx: Ctx):
         for key, what in pad_correspond(cases[ci], obs_all[ci], v, part):
             nd += 1
             ctx.cov["disagreements_checked"] += 1
-            ctx.violation(key, "model and implementation disagree on Dataset.pad / crop: " + what, dict(cases[ci]),
-                          found_input=failed[ci])
+            ctx.violation(key, "model and implementation disagree on Dataset.pad / crop: " + what + layout_note(cases[ci]),
+                          dict(cases[ci]), found_input=failed[ci])
     # general crops: correspondence of the slicing model only (the property speaks of crop only through the
     # pad round trip)
-    ccases = [gen_crop_case(r) for _ in range(ctx.budget(40, 800))]
+    ccases = [dict(gen_crop_case(r)) for _ in range(ctx.budget(40, 800))]
     cexprs, cown, cobs = [], [], []
-    for ci, case in enumerate(ccases):
-        cobs.append(crop_impl(case))
+    for ci in range(len(ccases)):
+        ccases[ci]["layout"] = gen_layout(lr, len(ccases[ci]["shape"]))
+        case, got = layout_guard(ctx, "crop", crop_impl, ccases[ci])
+        ccases[ci] = case
+        cobs.append(got)
+        layout_dist(ctx, "crop", case)
+        # a crop is a selection of pixels: the same pixels whatever the layout of the array they are selected from
+        for key, what in layout_compare(case, {"array": cobs[ci]}, lambda c: {"array": crop_impl(c)}, "crop", ("array",)):
+            ctx.violation(key, what, dict(case))
         ctx.dist("crop/general")
         ctx.count(("crop", json.dumps(case, sort_keys=True)), nontrivial=True)
         for part in (["re", "im"] if case["data8_im"] is not None else ["re"]):
@@ -823,8 +1046,9 @@ def check_padcrop(ctx: Ctx):
             nd += 1
             ctx.cov["disagreements_checked"] += 1
             ctx.violation("crop-correspondence", "model and implementation disagree on Dataset.crop(%s, axes=%s) of shape %s: "
-                          "implementation shape %s, model shape %s" % (ccases[ci]["cw"], ccases[ci]["axes"], ccases[ci]["shape"],
-                                                                       list(cobs[ci].shape), [int(t) for t in v[0]]),
+                          "implementation shape %s, model shape %s%s" % (ccases[ci]["cw"], ccases[ci]["axes"], ccases[ci]["shape"],
+                                                                         list(cobs[ci].shape), [int(t) for t in v[0]],
+                                                                         layout_note(ccases[ci])),
                           dict(ccases[ci]), found_input=False)
     c0 = cases[min(2, len(cases) - 1)]
     ctx.sample({"kind": "pad", "case": {k: c0.get(k) for k in ("dtype", "shape", "mode", "out", "pw")},
@@ -1056,17 +1280,22 @@ def rsmeta_correspond(case, obs, v):
 def check_resample(ctx: Ctx):
     r = ctx.rng
     cases = [dict(c) for c in _corpus().get("rs", [])]
+    lr = layout_rng(ctx)
     for _ in range(ctx.budget(85, 1500)):
-        cases.append(gen_rs_case(r))
+        cases.append(dict(gen_rs_case(r)))
+        cases[-1]["layout"] = gen_layout(lr, len(cases[-1]["shape"]))
     obs_all, exprs, mexprs, failed = [], [], [], {}
     flist = []
-    for ci, case in enumerate(cases):
-        obs = rs_impl(case)
+    for ci in range(len(cases)):
+        case, obs = layout_guard(ctx, "resample", rs_impl, cases[ci])
+        cases[ci] = case
         obs_all.append(obs)
         bad = rs_oracle(case, obs)
+        bad += layout_compare(case, obs, rs_impl, "resample", ("array", "origin", "sampling"), tol_of(case["dtype"]))
         failed[ci] = bool(bad)
         for key, what in bad:
-            ctx.violation(key, what, dict(case))
+            ctx.violation(key, what + layout_note(case), dict(case))
+        layout_dist(ctx, "resample", case)
         outs = rs_outs(case)
         ns = [case["shape"][a] for a in case["axes"]]
         ctx.dist("resample/dtype=%s" % case["dtype"])
@@ -1097,15 +1326,15 @@ def check_resample(ctx: Ctx):
         for key, what in rs_correspond(cases[ci], obs_all[ci], v, "resample-stagewise-correspondence", "stage-wise float model"):
             nd += 1
             ctx.cov["disagreements_checked"] += 1
-            ctx.violation(key, "stage-wise N-D model and implementation disagree on Dataset.fourier_resample: " + what,
-                          dict(cases[ci]), found_input=failed[ci])
+            ctx.violation(key, "stage-wise N-D model and implementation disagree on Dataset.fourier_resample: " + what
+                          + layout_note(cases[ci]), dict(cases[ci]), found_input=failed[ci])
     for ci, (case, obs, v, mv) in enumerate(zip(cases, obs_all, vals, mvals)):
         ctx.cov["traces_validated_against_impl"] += 2
         for key, what in rs_correspond(case, obs, v) + rsmeta_correspond(case, obs, mv):
             nd += 1
             ctx.cov["disagreements_checked"] += 1
             ctx.violation(key, "model and implementation disagree on Dataset.fourier_resample (the resampling theorems no "
-                          "longer speak about this code): " + what, dict(case), found_input=failed[ci])
+                          "longer speak about this code): " + what + layout_note(case), dict(case), found_input=failed[ci])
     # out_shape from factors: max(1, int(round(n * f))) vs the binary64 / round-half-even model
     if flist:
         ex = ["outlen_case [%s]" % "; ".join("(%d%%Z, %s)" % (n, cfloat(f)) for _, n, f, _ in flist)]
@@ -1217,13 +1446,22 @@ def updown_run(case):
 def check_resample_laws(ctx: Ctx):
     r = ctx.rng
     n1 = n2 = 0
-    for case in [dict(c) for c in _corpus().get("lin", [])] + [gen_lin_case(r) for _ in range(ctx.budget(35, 700))]:
+    lr = layout_rng(ctx)
+    for case in [dict(c) for c in _corpus().get("lin", [])] + [
+            dict(gen_lin_case(r), new=True) for _ in range(ctx.budget(35, 700))]:
+        if case.pop("new", False):
+            case["layout"] = gen_layout(lr, len(case["shape"]))
+        layout_dist(ctx, "linear", case)
         n1 += 1
         ctx.dist("linear/dtype=%s" % case["dtype"])
         ctx.count(("lin", json.dumps(case, sort_keys=True)), nontrivial=case["out"] != [case["shape"][a] for a in case["axes"]])
         for key, what in lin_run(case):
-            ctx.violation(key, what, dict(case))
-    for case in [dict(c) for c in _corpus().get("updown", [])] + [gen_updown_case(r) for _ in range(ctx.budget(45, 900))]:
+            ctx.violation(key, what + layout_note(case), dict(case))
+    for case in [dict(c) for c in _corpus().get("updown", [])] + [
+            dict(gen_updown_case(r), new=True) for _ in range(ctx.budget(45, 900))]:
+        if case.pop("new", False):
+            case["layout"] = gen_layout(lr, len(case["shape"]))
+        layout_dist(ctx, "updown", case)
         n2 += 1
         ns = [case["shape"][a] for a in case["axes"]]
         ctx.dist("updown/dtype=%s" % case["dtype"])
@@ -1231,14 +1469,14 @@ def check_resample_laws(ctx: Ctx):
             ctx.dist("updown/axis=%s->%s" % ("even" if n % 2 == 0 else "odd", "even" if m % 2 == 0 else "odd"))
         ctx.count(("updown", json.dumps(case, sort_keys=True)), nontrivial=case["out"] != ns)
         for key, what in updown_run(case):
-            ctx.violation(key, what, dict(case))
+            ctx.violation(key, what + layout_note(case), dict(case))
     ctx.log("resample laws: %d linearity cases, %d up/down round trips" % (n1, n2))
 
 
 # ------------------------------------------------------------------------------------------
 # SEQUENCES: several operations on the SAME source dataset, one after the other
 
-SRC_KEYS = ("dtype", "shape", "data8", "data8_im", "origin8", "sampling8", "cls", "calib")
+SRC_KEYS = ("dtype", "shape", "data8", "data8_im", "origin8", "sampling8", "cls", "calib", "layout")
 OP_GEN = {"bin": lambda r, b: gen_bin_case(r, True, base=b), "rs": lambda r, b: gen_rs_case(r, base=b),
           "pad": lambda r, b: gen_pad_case(r, base=b), "crop": lambda r, b: gen_crop_case(r, base=b)}
 
@@ -1327,11 +1565,47 @@ def seq_history(case, k):
              "float32-array": "a float32 ndarray", "scalar": "one float for all axes", "int-tuple": "python ints",
              "int-array": "an int64 ndarray", "mixed": "int origin, float sampling"}[case.get("calib") or "float-list"]
     pre = ["ds.%s" % _op_text(seq_opcase(case, j)) for j in range(k)]
-    return ("%s of shape %s %s, origin %s sampling %s (%s); %scall %d of %d on this source: ds.%s"
-            % (case.get("cls") or "Dataset", case["shape"], case["dtype"], [str(frac8(v)) for v in case["origin8"]],
-               [str(frac8(v)) for v in case["sampling8"]], calib,
+    return ("%s of shape %s %s%s, origin %s sampling %s (%s); %scall %d of %d on this source: ds.%s"
+            % (case.get("cls") or "Dataset", case["shape"], case["dtype"],
+               (" built from " + layout_text(case["layout"])) if case.get("layout") else "",
+               [str(frac8(v)) for v in case["origin8"]], [str(frac8(v)) for v in case["sampling8"]], calib,
                ("after " + ", then ".join(pre) + " (all returning new datasets) - ") if pre else "", k + 1, len(case["ops"]),
                _op_text(seq_opcase(case, k))))
+
+
+def seq_layout_compare(case, steps):
+    """the same calls on the same source built from np.ascontiguousarray of its array: every result must be the same
+    (exact for bin / pad / crop, the resampling tolerance for fourier_resample).  -> [(key, what, step)]"""
+    if not case.get("layout"):
+        return []
+    ref = seq_run(dict(case, layout=None))
+    bad = []
+    scale = max(1.0, float(np.max(np.abs(make_array(case)))) if make_array(case).size else 1.0)
+    for k, (st, rt) in enumerate(zip(steps, ref)):
+        opc, obs, robs = st["op"], st["obs"], rt["obs"]
+        name = {"bin": "bin", "rs": "resample", "pad": "pad", "crop": "crop"}[opc["kind"]]
+        if ("raises" in obs) != ("raises" in robs):
+            same, where = False, None
+            f = "outcome (%s vs %s)" % (obs.get("raises", "a result"), robs.get("raises", "a result"))
+        elif "raises" in obs:
+            continue
+        else:
+            rel = tol_of(opc["dtype"]) if opc["kind"] == "rs" else 2.0 ** -20 if opc.get("reducer") == "mean" else 0.0
+            same, where, f = True, None, None
+            for f in ("array", "rt_rel", "rt_abs", "rt_axes", "origin", "sampling"):
+                if f not in obs:
+                    continue
+                if f in ("origin", "sampling"):
+                    same, where = list(obs[f]) == list(robs[f]), None
+                else:
+                    same, where = same_values(obs[f], robs[f], rel, scale)
+                if not same:
+                    break
+        if not same:
+            bad.append(("%s-depends-on-memory-layout" % name, "%s: the %s differs from that of the same calls on the same "
+                        "source built from np.ascontiguousarray of its array%s" % (
+                            seq_history(case, k), f, "" if where is None else " (first difference at %s)" % (where,)), k))
+    return bad
 
 
 def seq_oracle(case, steps):
@@ -1450,20 +1724,23 @@ def seq_changes_calibration(opc):
 def check_sequences(ctx: Ctx):
     r = ctx.rng
     cases = [dict(c) for c in _corpus().get("seq", [])]
+    lr = layout_rng(ctx)
     for _ in range(ctx.budget(80, 1200)):
-        cases.append(gen_seq_case(r))
+        cases.append(dict(gen_seq_case(r)))
+        cases[-1]["layout"] = gen_layout(lr, len(cases[-1]["shape"]))
     runs, exprs, owners, failed = [], [], [], {}
     nsteps = 0
     for ci, case in enumerate(cases):
         steps = seq_run(case)
         runs.append(steps)
-        bad = seq_oracle(case, steps)
+        bad = seq_oracle(case, steps) + seq_layout_compare(case, steps)
         failed[ci] = {k for _, _, k in bad}
         for key, what, k in bad:
             ctx.violation(key, what, dict(case, failed_step=k))
         ops = case["ops"]
         nsteps += len(ops)
         form = case.get("calib") or "float-list"
+        layout_dist(ctx, "sequence", case)
         ctx.dist("sequence/length=%d" % len(ops))
         ctx.dist("sequence/calibration=%s" % form)
         ctx.dist("sequence/calibration-dtype=%s" % ("integer" if form in INT_CALIB else "mixed" if form == "mixed" else "float"))
@@ -1528,7 +1805,14 @@ def run(ctx: Ctx):
         "int64 ndarray, python ints, one scalar, or ints + floats (about 64% float-, 25% integer-typed, 11% mixed), then 2..4 "
         "calls (bin / fourier_resample / pad / crop, the last one a bin or a resample) ON THAT SOURCE, all copying except "
         "that a quarter end with an in-place call; every result is judged by the single-call oracle and the model against "
-        "the ORIGINAL data and calibration, and the source is re-read after every copying call.  A case is distinct by its full input; "
+        "the ORIGINAL data and calibration, and the source is re-read after every copying call.  MEMORY LAYOUT (every kind "
+        "of case, laid over the generated cases by a generator seeded from the state of ctx.rng): the array handed to "
+        "from_array holds the case's values as a fresh C-contiguous array (about 30%), a Fortran-contiguous copy, a "
+        "transposed or axis-permuted view, a strided view or a window of a larger junk-filled buffer, a view with negative "
+        "strides, a view at an offset inside its buffer (C or F order), read-only (about 70% non-C together; about 19% are "
+        "strictly Fortran-contiguous with >= 2 dimensions); the oracles and the model see the values only, and every "
+        "non-C case is run again on np.ascontiguousarray of the same values and must give the same result.  "
+        "A case is distinct by its full input; "
         "non-trivial when some factor > 1 and the result is non-empty (bin), some pad width > 0 (pad), the output "
         "shape differs from the input shape (resample, linearity, round trip), a later call follows a copying bin / resample "
         "that computed a new calibration (sequence)")
@@ -1573,12 +1857,18 @@ def replay(ctx: Ctx, path):
     print("case:", json.dumps(show))
     if "data8" in rp:
         print("input array (%s):\n%s" % (rp["dtype"], make_array(rp)))
+        x = lay_out(make_array(rp), rp.get("layout"))
+        print("handed to from_array as %s: strides %s (itemsize %d), flags %s%s" % (
+            layout_text(rp.get("layout")), list(x.strides), x.itemsize, layout_flags(x),
+            "" if x.flags.writeable else ", read-only"))
     bad = []
     if kind == "bin":
         obs = bin_impl(rp)
         print("Dataset.bin ->\n%s\norigin %s sampling %s" % (obs["array"], obs["origin"], obs["sampling"]))
         print("block sums (property text):\n%s" % block_sums(make_array(rp), dict(zip(rp["axes"], rp["factors"]))))
         bad = bin_oracle(rp, obs, rerun=bin_impl)
+        bad += layout_compare(rp, obs, bin_impl, "bin", ("array", "origin", "sampling"),
+                              0.0 if rp["reducer"] == "sum" else 2.0 ** -20)
         ex = [bin_expr(rp, "re")] + ([bin_expr(rp, "im")] if rp["data8_im"] is not None else [])
         v = coq_vals(ctx, "replay", PRE_Q, ex, 2)
         print("model: shape %s data %s origin %s sampling %s" % (
@@ -1590,6 +1880,8 @@ def replay(ctx: Ctx, path):
         print("pad widths (property text): %s\npadded:\n%s\ncrop (before,-after):\n%s" % (pad_widths_text(rp), obs["padded"],
                                                                                           obs["rt_rel"]))
         bad = pad_oracle(rp, obs)
+        bad += layout_compare(rp, obs, pad_impl, "pad", (("padded",) if pad_fill8(rp, "re") is not None else ()) + tuple(
+            f for f in ("rt_rel", "rt_abs", "rt_axes") if f in obs))
         v = coq_vals(ctx, "replay", PRE_Q, [pad_expr(rp, "re")], 1)[0]
         print("model: padded shape %s widths %s" % (v[0], v[2]))
         bad += pad_correspond(rp, obs, v, "re")
@@ -1600,6 +1892,7 @@ def replay(ctx: Ctx, path):
         print("Dataset.crop ->\n%s\nmodel: %s" % (got, v))
         if not ti_equal(got, v, "re"):
             bad.append(("crop-correspondence", "model and implementation differ"))
+        bad += layout_compare(rp, {"array": got}, lambda c: {"array": crop_impl(c)}, "crop", ("array",))
     elif kind == "rs":
         obs = rs_impl(rp)
         print("Dataset.fourier_resample ->\n%s\norigin %s sampling %s" % (obs["array"], obs["origin"], obs["sampling"]))
@@ -1607,6 +1900,7 @@ def replay(ctx: Ctx, path):
             print("DFT oracle:\n%s" % dft_oracle(make_array(rp), rp["axes"], rs_outs(rp)))
         print("mean in %s out %s" % (np.mean(make_array(rp)), np.mean(obs["array"])))
         bad = rs_oracle(rp, obs)
+        bad += layout_compare(rp, obs, rs_impl, "resample", ("array", "origin", "sampling"), tol_of(rp["dtype"]))
         v = coq_vals(ctx, "replay", PRE_F, [rs_expr(rp, obs)], 1)[0]
         print("float model: shape %s, max |impl - model| = %.3g" % (v[0], float_of_zz(v[1])))
         bad += rs_correspond(rp, obs, v)
@@ -1630,7 +1924,7 @@ def replay(ctx: Ctx, path):
             if st["src"] is not None:
                 print("   source afterwards: shape %s origin %s sampling %s" % (list(st["src"]["array"].shape),
                                                                                 st["src"]["origin"], st["src"]["sampling"]))
-        bad3 = seq_oracle(rp, steps)
+        bad3 = seq_oracle(rp, steps) + seq_layout_compare(rp, steps)
         tg = seq_exprs(rp, steps)
         v = coq_vals(ctx, "replay", PRE_Q, [e for _, _, e in tg], 8) if tg else []
         bad3 += seq_correspond(rp, steps, [(k, tag, x) for (k, tag, _), x in zip(tg, v)])
